@@ -22,16 +22,19 @@ COMP = "varint"
 TRACE_MOD, TRACE_CFG = "VarIntTrace.tla", "VarIntTrace.cfg"
 
 
+SINGLES = ("ints", "decs", "helpers")
+
+
 def segment_of(events, idx):
     """The events a rejection at idx needs for a replay: the batch itself, or the session."""
     e = events[idx]
-    if e["e"] in ("ints", "decs"):
+    if e["e"] in SINGLES:
         return idx, idx + 1
     a = idx
-    while a > 0 and not (events[a]["e"] == "pk_new" or (events[a]["e"] == "up_new" and events[a].get("src") == "raw")):
+    while a > 0 and not (events[a]["e"] in ("pk_new", "iu_new") or (events[a]["e"] == "up_new" and events[a].get("src") == "raw")):
         a -= 1
     b = idx + 1
-    while b < len(events) and events[b]["e"] not in ("pk_new", "ints", "decs") and not (
+    while b < len(events) and events[b]["e"] not in ("pk_new", "iu_new") + SINGLES and not (
             events[b]["e"] == "up_new" and events[b].get("src") == "raw"):
         b += 1
     return a, b
@@ -53,6 +56,13 @@ def key_of(ev, seg):
         return "packer-written:canary=%s" % ev.get("canary")
     if k == "r":
         return "unpacker-read:%s:res=%s" % (ev["o"], ev["res"])
+    if k == "up_new":
+        return "unpacker-new:demo=%s:res=%s" % (ev.get("demo"), ev.get("res"))
+    if k == "helpers":
+        bad = [i for i in ev["items"] if i.get("res") in ("panic", "canary")]
+        return "helper:%s:res=%s" % ((bad[0]["f"], bad[0]["res"]) if bad else (ev["items"][0]["f"], "?"))
+    if k == "ir":
+        return "intunpacker:%s:res=%s" % (ev["o"], ev["res"])
     return "packer:%s" % k
 
 
@@ -64,6 +74,11 @@ def tlc_configs(tier):
         ("MC_Packer.tla", "MC_Packer_rt_%s.cfg" % t, "Packer round trip", True),
         ("MC_Packer.tla", "MC_Packer_bands_%s.cfg" % t, "Packer exact fit (magnitude bands)", True),
         ("MC_Packer.tla", "MC_Packer_any_%s.cfg" % t, "Unpacker totality", True),
+        # extension round
+        ("MC_Packer.tla", "MC_Packer_uuid_%s.cfg" % t, "Packer write_uuid / read_uuid", True),
+        ("MC_Packer.tla", "MC_Packer_poison_%s.cfg" % t, "Unpacker reads of every kind after an error", True),
+        ("MC_Packer.tla", "MC_Packer_demo_%s.cfg" % t, "Unpacker demo padding rule (finish at every position)", True),
+        ("MC_Helpers.tla", "MC_Helpers_%s.cfg" % t, "helper functions and IntUnpacker", False),
     ]
 
 
@@ -90,8 +105,19 @@ def run(ctx):
         rc, out = core.run_harness([vh, "drive", str(ctx.seed), str(n_ints), str(n_decs), str(n_sess), trace], timeout=600)
         return rc, out
 
+    # ---- all 2^32 integers (thorough) / every 64th of them + everything below 2^21 (quick) on the real
+    # write_int / read_int, against the class table IntClasses.tla prints
+    stride = 64 if quick else 1
+    sweep_args = [str(stride), str(ctx.seed % stride), str(0 if stride == 1 else 1 << 21), str(8 if quick else 16)]
+
+    def sweep_job():
+        mm = os.path.join(ctx.workdir, "mismatch-sweep.ndjson")
+        res, summ, out, rc = codec.pipe(ctx, sd, "MC_IntClasses.tla", "MC_IntClasses.cfg", [vh, "sweep"] + sweep_args + [mm],
+                                        "VarInt classes, sweep of the integers", workers=2, timeout=tmo)
+        return ("MC_IntClasses.tla", "MC_IntClasses.cfg", "VarInt classes, sweep of the integers", False, mm, res, summ, out, rc)
+
     jobs = [(lambda m=m, c=c, l=l, v=v: a_job(m, c, l, v)) for (m, c, l, v) in tlc_configs(ctx.tier)]
-    results = codec.parallel(jobs + [b_job], max_workers=6)
+    results = codec.parallel(jobs + [sweep_job, b_job], max_workers=8)
     brc, bout = results[-1]
 
     evaluations, nontrivial = 0, 0
@@ -99,7 +125,7 @@ def run(ctx):
         codec.harness_failure(ctx, "C08", label, rc, out)
         codec.check_model_run(ctx, res, label)
         # vacuity: the unpacker-only configuration has no write phase by construction
-        expected_zero = {"Write", "StartRead"} if "_any_" in cfg else set()
+        expected_zero = {"Write", "StartRead"} if ("_any_" in cfg or "_poison_" in cfg or "_demo_" in cfg) else set()
         zero = [a for a in res.zero_actions if a not in expected_zero]
         if cov and zero:
             ctx.report("model:%s:vacuous" % cfg, "actions never taken in an exhaustive configuration: %s" % zero,
@@ -115,6 +141,16 @@ def run(ctx):
         nontrivial += summ.get("nontrivial", 0)
         ctx.add_run("replay on libtw2-packer: " + label, cases_int=summ["ints"], cases_bytes=summ["decs"],
                     sessions=summ["sessions"], calls_in_sessions=summ["ops"], mismatching_cases=summ["mismatch_cases"])
+        if "per_class" in summ:
+            # completeness of the sweep: with stride 1 every class must have been visited exactly as often as it is large
+            swept = sum(c["swept"] for c in summ["per_class"])
+            ctx.coverage["integers_swept_on_real_code"] = swept
+            ctx.coverage["sweep"] = {"stride": summ["stride"], "offset": summ["offset"], "dense_below": summ["dense"],
+                                     "threads": summ["threads"], "wall_s": round(summ["wall_s"], 1), "per_class": summ["per_class"]}
+            if summ["stride"] == 1:
+                short = [c for c in summ["per_class"] if c["swept"] < c["mhi"] - c["mlo"] + 1]
+                if short or swept < 2 ** 32:
+                    raise core.ToolError("the sweep of all integers is incomplete: %s" % short)
         for s in summ.get("samples", [])[:2]:
             ctx.sample(s, limit=6)
         if summ["mismatch_cases"]:
@@ -134,11 +170,12 @@ def run(ctx):
         ok_n, drifts, _ = codec.judge_trace(ctx, sd, TRACE_MOD, TRACE_CFG, trace, segment_of, key_of, "direction B", timeout=tmo)
         for d in drifts:
             ctx.report_drift("recorded trace: " + d)
-        evaluations += bs["ints"] + bs["decs"] + bs["sessions"]
+        evaluations += bs["ints"] + bs["decs"] + bs["sessions"] + bs.get("helpers", 0) + bs.get("iu_sessions", 0)
         ctx.add_run("recorded trace validated by VarIntTrace.tla", events=bs["events"], ints=bs["ints"],
-                    decoder_inputs=bs["decs"], sessions=bs["sessions"], events_accepted=ok_n)
+                    decoder_inputs=bs["decs"], sessions=bs["sessions"], helper_calls=bs.get("helpers", 0),
+                    intunpacker_sessions=bs.get("iu_sessions", 0), events_accepted=ok_n)
         evs = core.read_ndjson(trace)
-        sess = [e for e in evs if e["e"] not in ("ints", "decs")][:12]
+        sess = [e for e in evs if e["e"] not in SINGLES][:12]
         ctx.sample({"recorded_session_events": sess}, limit=7)
 
     # ---- binding self-test (thorough): a corrupted trace must be rejected
